@@ -324,9 +324,15 @@ func runC01(c *Ctx) {
 		L.Analysed(fname(fn))
 		tb := newTB(fn)
 		sets := callsTo(fn, "iface:store.Set")
-		adds := callsTo(fn, "defaultPolicy.Add")
+		var adds []ssa.CallInstruction
+		for _, a := range callsTo(fn, "defaultPolicy.Add") {
+			// the admission that governs the store: the policy.Add executed before it on every path
+			if len(sets) == 1 && instrDominates(a.(ssa.Instruction), sets[0].(ssa.Instruction)) {
+				adds = append(adds, a)
+			}
+		}
 		if len(sets) != 1 || len(adds) != 1 {
-			L.Fail("R-C01-ENTRY", "Cache.processItems#Set", fmt.Sprintf("expected one store.Set and one policy.Add in the applier, found %d/%d", len(sets), len(adds)), fn.Pos())
+			L.Fail("R-C01-ENTRY", "Cache.processItems#Set", fmt.Sprintf("expected one store.Set governed by one policy.Add in the applier, found %d/%d", len(sets), len(adds)), fn.Pos())
 			return
 		}
 		item := tb.T(sets[0].Common().Args[0]).String()
@@ -375,11 +381,20 @@ func runC01(c *Ctx) {
 		for _, r := range returnsOf(fn) {
 			rv := returnValues(r)
 			t0, t1 := tb.T(rv[0]).String(), tb.T(rv[1]).String()
-			if t1 == "c[false]" && t0 == "call[zeroValue]" {
-				continue
+			if t1 == "c[false]" {
+				continue // a miss: whatever accompanies found=false is not "a value returned for the key"
 			}
 			n++
-			if t0 != "ext[0]("+g+")" || t1 != "ext[1]("+g+")" {
+			switch {
+			case t0 == "ext[0]("+g+")" && t1 == "ext[1]("+g+")":
+			case t0 == "ext[0]("+g+")" && t1 == "c[true]":
+				// constant true: only on the found side of that store.Get
+				found := edgesWhere(fn, tb, "ext[1]("+g+")", nil, true)
+				if b, _ := reach(after(gets[0].(ssa.Instruction)), isInstr(r), nil, cutSet(found)); b != nil || len(found) == 0 {
+					ok = false
+					L.Fail("R-C01-RETURN", "Cache.Get", "returns found=true on a path that has not passed the found side of store.Get", r.Pos())
+				}
+			default:
 				ok = false
 				L.Fail("R-C01-RETURN", "Cache.Get", "returns ("+t0+", "+t1+"), want both results of the one store.Get", r.Pos())
 			}
@@ -424,6 +439,79 @@ func runC01HashArms(c *Ctx) {
 			case Match("call[z.MemHash](?x)", t0, env) && Match("call[xxhash.Sum64](?x)", t1, env):
 				shapeOK = true
 			}
+			if shapeOK && fromKey && isRefl {
+				// the accessor must be the one that is defined for the reflect.Kind governing this arm
+				// (v.String() of a Slice value is the constant "<[]uint8 Value>": all such keys would collide).
+				// the kinds governing this arm: kind tests whose equal side reaches the return without crossing another kind test
+				kindOf := func(b *ssa.BasicBlock) (string, int) {
+					iff := lastIf(b)
+					if iff == nil {
+						return "", 0
+					}
+					e2 := Env{}
+					pol := condPolarity(tb.T(iff.Cond), "eq(call[reflect.Value.Kind](call[reflect.ValueOf](p[0])),?k)", e2)
+					if pol == 0 || e2["k"].Op != "c" {
+						return "", 0
+					}
+					return e2["k"].Sym, pol
+				}
+				isKindTest := func(in ssa.Instruction) bool {
+					if _, isIf := in.(*ssa.If); !isIf {
+						return false
+					}
+					k, _ := kindOf(in.Block())
+					return k != ""
+				}
+				classOf := func(kind string) string {
+					for _, kn := range []string{"String", "Slice", "Uint", "Uint8", "Uint16", "Uint32", "Uint64", "Uintptr", "Int", "Int8", "Int16", "Int32", "Int64"} {
+						if hashKindConst(P, kn) == kind {
+							switch {
+							case kn == "String":
+								return "call[z.MemHashString](call[reflect.Value.String]("
+							case kn == "Slice":
+								return "call[z.MemHash](call[reflect.Value.Bytes]("
+							case strings.HasPrefix(kn, "Uint"):
+								return "call[reflect.Value.Uint]("
+							default:
+								return "conv[uint64](call[reflect.Value.Int]("
+							}
+						}
+					}
+					return ""
+				}
+				kind, want := "", ""
+				conflict := false
+				for _, b := range fn.Blocks {
+					k, pol := kindOf(b)
+					if k == "" {
+						continue
+					}
+					succ := 0
+					if pol < 0 {
+						succ = 1
+					}
+					if hit, _ := reach(Pos{b.Succs[succ], 0}, isInstr(r), isKindTest, nil); hit == nil {
+						continue
+					}
+					w := classOf(k)
+					if want != "" && w != want {
+						conflict = true
+					}
+					kind, want = kind+" "+k, w
+				}
+				kind = strings.TrimSpace(kind)
+				if conflict {
+					want = ""
+				}
+				if kind == "" || want == "" {
+					L.Undecided("R-C01-HASHARMS", cons, "reflect arm is not governed by a `v.Kind() == reflect.<K>` test the rule knows (kind constant "+kind+")", r.Pos())
+					continue
+				}
+				if !strings.HasPrefix(t0.String(), want) {
+					L.Fail("R-C01-HASHARMS", cons, "reflect arm for kind constant "+kind+" returns "+t0.String()+"; the accessor defined for that kind is "+want+"…): other accessors panic or yield a constant, so distinct keys collide on both hashes", r.Pos())
+					continue
+				}
+			}
 			if shapeOK && fromKey {
 				if isRefl {
 					refl++
@@ -454,16 +542,7 @@ func runC01HashArms(c *Ctx) {
 				}
 			}
 		})
-		reflectPkg := P.PPkgs["z"].Imports["reflect"]
-		kindConst := func(name string) string {
-			if reflectPkg == nil {
-				return "?"
-			}
-			if c, ok := reflectPkg.Types.Scope().Lookup(name).(*types.Const); ok {
-				return c.Val().ExactString()
-			}
-			return "?"
-		}
+		kindConst := func(name string) string { return hashKindConst(P, name) }
 		nTerms := 0
 		if iface != nil {
 			for i := 0; i < iface.NumEmbeddeds(); i++ {
@@ -501,4 +580,15 @@ func runC01HashArms(c *Ctx) {
 			L.Undecided("R-C01-HASHARMS", "z.KeyToHash#terms", "could not read the type set of the z.Key constraint", fn.Pos())
 		}
 	})
+}
+
+func hashKindConst(P *Prog, name string) string {
+	reflectPkg := P.PPkgs["z"].Imports["reflect"]
+	if reflectPkg == nil {
+		return "?"
+	}
+	if c, ok := reflectPkg.Types.Scope().Lookup(name).(*types.Const); ok {
+		return c.Val().ExactString()
+	}
+	return "?"
 }
